@@ -1108,7 +1108,7 @@ fn shutdown_mode(inputs: &[Value], _seed: u64, si: usize, sn: usize, out: &mut T
                     let (b, _) = read_reply_bytes(&mut s, 1, Duration::from_millis(600));
                     recv.extend(b);
                 }
-                "mid-command" => {
+                "mid-command" | "mid-command-long" => {
                     GATE_ARMED.store(true, Ordering::SeqCst);
                     gate_used = true;
                     tl.send(&cname, "get");
@@ -1139,7 +1139,9 @@ fn shutdown_mode(inputs: &[Value], _seed: u64, si: usize, sn: usize, out: &mut T
         }
         // a command in flight finishes after the signal
         if gate_used {
-            std::thread::sleep(Duration::from_millis(40));
+            // (long: the command outlasts every back-off / retry limit of the configuration, 100 ms here)
+            let long = states.iter().any(|s| s == "mid-command-long");
+            std::thread::sleep(Duration::from_millis(if long { 450 } else { 40 }));
             let mut g = GATE.lock().unwrap();
             g.1 = true;
             GATECV.notify_all();
